@@ -64,6 +64,7 @@ def parse_run(line):
     r = {"raw": line, "kind": d["kind"], "S": int(d["S"]), "cls": int(d["cls"]), "ob": d["ob"] == "1",
          "store": dec_tracks(d["store"]), "sched": [t for t in d["sched"].split(".") if t], "recv": int(d["recv"]),
          "mode": d["mode"], "status": d["status"], "other_err": int(d["other_err"]), "after": d["after"],
+         "before": d.get("before", ""),
          "log": [t for t in d["log"].split(".") if t]}
     if r["kind"] == "foreign":
         r["cands"] = dec_tracks(d["cands"])
@@ -111,8 +112,10 @@ def metric(cls, a, b):
 
 
 def obs_of(t, cls):
+    """a track HAS class c iff some observation was ever added to it for c; a class listed without values only
+    received an attributes-only update (no observation, no feature) and is still missing"""
     for c, vs in t["obs"]:
-        if c == cls:
+        if c == cls and vs:
             return vs
     return None
 
@@ -162,8 +165,16 @@ def key_sort(xs):
 
 
 def expected_after(r):
-    ts = sorted(r["store"], key=lambda t: t["id"])
-    return ",".join("%s@%d" % (enc_track(t), t["id"] % r["S"]) for t in ts)
+    return r["before"]
+
+
+def placement_ok(r):
+    for e in r["before"].split(","):
+        if e:
+            spec, k = e.rsplit("@", 1)
+            if int(spec.split(":")[0]) % r["S"] != int(k):
+                return False
+    return True
 
 
 def oracle(r):
@@ -197,8 +208,8 @@ def oracle(r):
             bad.append(("C10:owned-query-misses-pairs", "queried tracks are not compared with one another: " + what))
         else:
             bad.append(("C10:error-stream", what))
-    if r["after"] != expected_after(r):
-        bad.append(("C10:store-changed", "the store is not unchanged after the query: %s expected %s" % (r["after"], expected_after(r))))
+    if r["after"] != r["before"] or len([e for e in r["before"].split(",") if e]) != len(r["store"]) or not placement_ok(r):
+        bad.append(("C10:store-changed", "the store is not unchanged after the query: %s, before the query %s" % (r["after"], r["before"])))
     return bad
 
 
@@ -206,7 +217,7 @@ def oracle(r):
 # model side
 
 def coq_track(t):
-    obs = vlib.coq_list(["(%d%%N, %s)" % (c, vlib.coq_list(["%d%%N" % v for v in vs])) for c, vs in t["obs"]])
+    obs = vlib.coq_list(["(%d%%N, %s)" % (c, vlib.coq_list(["%d%%N" % v for v in vs])) for c, vs in t["obs"] if vs])
     return "DistInst.mkT %d%%N %d%%N %d%%N %s" % (t["id"], t["grp"], t["status"], obs)
 
 
@@ -435,6 +446,8 @@ def run(chk):
         hist["recv_mode=%d" % r["recv"]] += 1
         if r["err"]:
             hist["with_class_errors"] += 1
+        if any(not vs for t in r["store"] + r["cands"] for _, vs in t["obs"]):
+            hist["with_attribute_only_updates"] += 1
         nonempty = len(set(t["id"] % r["S"] for t in r["store"]))
         default = [t for t in r["sched"] if t[0] == "E"] + ["R"] + ["X%d" % k for _ in range(len(effective_cands(r))) for k in range(r["S"])]
         if any(t[0] in "OF" for t in r["sched"]):
